@@ -145,7 +145,13 @@ func RunGatedHistory(id int, seed int64, brokerSet bool, E int) (h *GHistory, pa
 	if long {
 		G = 1 + rng.Intn(2)
 	}
-	withFails := id%2 == 0
+	// first-use histories: several callers hand a fresh filter its very first events at the same moment
+	firstUse := id%5 == 1
+	if firstUse {
+		long = false
+		G = 3 + rng.Intn(4)
+	}
+	withFails := id%2 == 0 && !firstUse
 	idNames := []string{"x", "y", "z"}
 	var pmu sync.Mutex
 	var wg sync.WaitGroup
@@ -217,11 +223,21 @@ func RunGatedHistory(id int, seed int64, brokerSet bool, E int) (h *GHistory, pa
 			gate.RUnlock()
 		}
 	}
+	var startLine sync.WaitGroup
+	startLine.Add(1)
 	for g := 0; g < G; g++ {
 		wg.Add(1)
 		go func(g int) {
 			defer wg.Done()
 			r := rand.New(rand.NewSource(seed*977 + int64(g)))
+			startLine.Wait()
+			if firstUse {
+				doOp(r, "ev")
+				if r.Intn(2) == 0 {
+					doOp(r, "ev")
+				}
+				return
+			}
 			n := 4 + r.Intn(4)
 			if long {
 				n = 22 + r.Intn(14)
@@ -252,6 +268,7 @@ func RunGatedHistory(id int, seed int64, brokerSet bool, E int) (h *GHistory, pa
 			}
 		}(g)
 	}
+	startLine.Done()
 	wg.Wait()
 	// quiescent probes: what is still gated must be what some sequential order leaves behind
 	withFails = false
